@@ -398,8 +398,9 @@ func hasMathBin(t *Tree) bool {
 
 // k1Step: an entry that evaluates a math operator through a specialised parent without the
 // types having been refreshed by Type(): Eval<T> without Type() on a root math operator, or
-// Eval<T != bool> (with or without Type()) on a root comparison (which then also evaluates its
-// operands through the stale specialisation: the K2 mechanism if they are stateful).
+// Eval<T != bool> (with or without Type()) on a root comparison or AND/OR (which then evaluates its
+// operands through the stale specialisation, before any type check: the K2 mechanism if they are
+// stateful - whether and how often they are stepped depends on what the node saw before).
 func k1Step(root *Tree, entry, x string) bool {
 	if entry == "eval" {
 		return false
@@ -407,7 +408,7 @@ func k1Step(root *Tree, entry, x string) bool {
 	if isMathBin(root) {
 		return entry == "typed"
 	}
-	return isCmpBin(root) && x != "bool"
+	return root.K == "bin" && x != "bool"
 }
 
 // isDyn mirrors NodeEvaluator.IsDynamic (used only to delimit the K1 class, not by an oracle).
@@ -425,31 +426,39 @@ func isDyn(n *Tree) bool {
 	return false
 }
 
-// k1NotNodes: `!` nodes below a binary operator over two operands of constant type
-// (comparisons, !x, literals) whose operand is not boolean at some step: the type guard
-// raised by the operand makes the operator unusable for good.
+// k1NotNodes: `!` nodes whose operand is not boolean at some step and that have, with no
+// function call in between, an ancestor binary operator over two operands of constant type
+// (comparisons, !x, literals): the type guard raised by the operand travels up to that
+// operator and makes it unusable for good.
 func k1NotNodes(c *Case) []*Tree {
 	var out []*Tree
 	per := perStepTypes(c)
-	c.Tree.walk(func(n *Tree) {
-		if n.K != "bin" || isDyn(n.A[0]) || isDyn(n.A[1]) {
-			return
-		}
-		for _, ch := range n.A {
-			for ch.K == "lam" {
-				ch = ch.A[0]
+	var rec func(n *Tree, underStatic bool)
+	rec = func(n *Tree, underStatic bool) {
+		switch n.K {
+		case "bin":
+			st := !isDyn(n.A[0]) && !isDyn(n.A[1])
+			rec(n.A[0], underStatic || st)
+			rec(n.A[1], underStatic || st)
+		case "fn":
+			for _, a := range n.A {
+				rec(a, false)
 			}
-			if ch.K != "un" || ch.S != "!" {
-				continue
-			}
-			for _, m := range per {
-				if m[ch.A[0]] != tBool {
-					out = append(out, ch)
-					break
+		case "un":
+			if n.S == "!" && underStatic {
+				for _, m := range per {
+					if m[n.A[0]] != tBool {
+						out = append(out, n)
+						break
+					}
 				}
 			}
+			rec(n.A[0], underStatic)
+		case "lam":
+			rec(n.A[0], underStatic)
 		}
-	})
+	}
+	rec(c.Tree, false)
 	return out
 }
 
@@ -511,7 +520,7 @@ func sanitize(c *Case) []string {
 				s.Entry = "type+typed"
 				n++
 			}
-			if isCmpBin(c.Tree) && (s.X != "bool" || s.FX != "bool") {
+			if c.Tree.K == "bin" && !isMathBin(c.Tree) && (s.X != "bool" || s.FX != "bool") {
 				if s.X != "" && s.X != "bool" {
 					s.X = "bool"
 				}
@@ -520,7 +529,7 @@ func sanitize(c *Case) []string {
 			}
 		}
 		if n > 0 {
-			ex = append(ex, "K1 math operator evaluated through a specialised parent without Type() (root math: Type() added; root comparison: Eval<bool> only)")
+			ex = append(ex, "K1 math operator evaluated through a specialised parent without Type() (root math: Type() added; root comparison/AND/OR: Eval<bool> only)")
 		}
 	}
 	if exclNestedLambda && groupsUsed(c) > 1 && nestedStateful(c.Tree) {
@@ -599,7 +608,7 @@ func classify(c *Case, xs []string) string {
 	}
 	for i, s := range c.Steps {
 		if i < len(xs) && xs[i] != "" && k1Step(c.Tree, s.Entry, xs[i]) {
-			if isCmpBin(c.Tree) && c.Tree.hasStateful() {
+			if !isMathBin(c.Tree) && c.Tree.hasStateful() {
 				return "eval/stateful-restepped-on-respecialise"
 			}
 			return "eval/binary-operator-stuck-after-failed-respecialisation"
